@@ -27,7 +27,7 @@ PathsDemands(e) ==
                     /\ ((rMax = 0 \/ Len(e.sibtext) <= rMax) => e.reuse[2] = e.sibn)>>,
     <<"C02.mtext",  e.mt = d>>,
     <<"C02.stable", e.mt2 = d>>,
-    <<"C02.held",   e.held = d>>,
+    <<"C02.held",   e.held = d /\ e.helds = d>>,
     <<"C02.string", e.str = d>>,
     <<"C02.verb_s", e.vs = d>>,
     <<"C02.verb_R", e.vR = FmtRoman(n, 0)>>,
